@@ -1,0 +1,10 @@
+//go:build verif
+
+package multiswarm
+
+import "go.brendoncarroll.net/p2p"
+
+// VerifNewSchema builds an AddrSchema directly from address parsers. Compiled only with -tags verif.
+func VerifNewSchema(parsers map[string]p2p.AddrParser[p2p.Addr]) AddrSchema {
+	return AddrSchema{parsers: parsers}
+}
